@@ -117,9 +117,8 @@ class ProcessDiameterMessage:
             if avp.get_length() == AVP_HEADER_LENGTH + len(avp.data):
                 checklist_mandatory_info += 1
 
-            data = avp.data.decode("utf-8")
-            process_message_logging.debug(f"data: {data}.")
-            if data == connection.peer_node.host_name:
+            process_message_logging.debug(f"data: {avp.data}.")
+            if avp.data == connection.peer_node.host_name.encode("utf-8"):
                 checklist_mandatory_info += 1
 
 
@@ -145,9 +144,8 @@ class ProcessDiameterMessage:
             if avp.get_length() == AVP_HEADER_LENGTH + len(avp.data):
                 checklist_mandatory_info += 1
 
-            data = avp.data.decode("utf-8")
-            process_message_logging.debug(f"data: {data}.")
-            if data == connection.peer_node.realm:
+            process_message_logging.debug(f"data: {avp.data}.")
+            if avp.data == connection.peer_node.realm.encode("utf-8"):
                 checklist_mandatory_info += 1
 
 
@@ -201,7 +199,6 @@ class ProcessDiameterMessage:
     @staticmethod
     def is_valid_host_ip_address_avp(avp, connection):
         if (avp.code == HOST_IP_ADDRESS_AVP_CODE):
-            host_ip_address = "{}.{}.{}.{}".format(int(avp.data[2]),int(avp.data[3]),int(avp.data[4]),int(avp.data[5]))
             return True
             # if connection.peer_node.ip_address == host_ip_address:
             #     return True
